@@ -180,6 +180,17 @@ fn main() {
     }
 
     // --- search -----------------------------------------------------------
+    // watchdog for every check: a run that does not end is inconclusive
+    // (exit 2), never a violation and never an endless wait
+    {
+        let limit: u64 = if tier.name() == "thorough" { 4 * 3600 } else { 1800 };
+        let wid = id.clone();
+        std::thread::spawn(move || {
+            std::thread::sleep(std::time::Duration::from_secs(limit));
+            eprintln!("{wid} watchdog: the run exceeded {limit} s; inconclusive");
+            std::process::exit(2);
+        });
+    }
     // a library call made outside any generated case (while a check prepares
     // its inputs) may panic too: that is a violation of the same kind as a
     // panic inside a case, not a reason to die with exit 101
